@@ -20,6 +20,7 @@ mod fam_files;
 mod fam_lints;
 mod fam_totality;
 mod fam_request;
+mod comment_spans;
 mod fam_doccomment;
 mod fam_options;
 mod fam_preproc;
@@ -102,6 +103,7 @@ pub fn make_family(name: &str) -> Option<Box<dyn Family>> {
         "syntax-visit" => Some(Box::new(fam_syntax::Syntax { mode: "visit" })),
         "syntax-spans" => Some(Box::new(fam_syntax::Syntax { mode: "spans" })),
         "snippet" => Some(Box::new(fam_snippet::Snippet::default())),
+        "snippet-notes" => Some(Box::new(fam_snippet::SnippetNotes::default())),
         "scope" => Some(Box::new(fam_scope::Scope::default())),
         "aliaschain" => Some(Box::new(fam_scope::AliasChain::default())),
         "repro" => Some(Box::new(fam_repro::Repro::default())),
